@@ -83,3 +83,97 @@ def forward_obligation(ctx, modnames, what):
     if not out:
         out.append(ctx.ok("+".join(modnames) + ":*", "every alternative constructor hands its own arguments on to __init__ (%d `cls(...)` calls inspected)" % total, key="ctor-forward"))
     return out
+
+
+# ----------------------------------------------------------------------------------------------------------------------------------
+# SAME-NAME FORWARD: a parameter handed on to a callee's parameter of the same name must be handed on as it is.
+# `recover(passphrase.strip())`, `decrypt(secret, passphrase.lower())`: the value is normalised on this path only, while the other
+# side of the pair (encrypt / serialise / derive) uses it as given -- the two no longer agree for the values the normalisation changes.
+
+def _callee(repo, mod, qn, call):
+    """(module, function node, is_bound) for calls whose callee can be named: f(..), self.m(..), cls.m(..), Class.m(..), obj.m(..) when
+    exactly one class of the repository's module defines m"""
+    f = call.func
+    cls = qn.split(".")[0] if "." in qn else None
+    if isinstance(f, ast.Name):
+        r = repo.resolve_name(mod.name, f.id)
+        if r and r[1] in repo.modules[r[0]].functions:
+            return repo.modules[r[0]], repo.modules[r[0]].functions[r[1]], False
+        if r and r[1] in repo.modules[r[0]].classes:
+            r2 = repo.resolve_method(r[0], r[1], "__init__")
+            if r2:
+                return r2[0], r2[1], True
+        return None
+    if isinstance(f, ast.Attribute):
+        if isinstance(f.value, ast.Name) and f.value.id in ("self", "cls") and cls:
+            r = repo.resolve_method(mod.name, cls, f.attr)
+            if r:
+                return r[0], r[1], "staticmethod" not in decorators(r[1])
+            return None
+        if isinstance(f.value, ast.Name):
+            r = repo.resolve_name(mod.name, f.value.id)
+            if r and r[1] in repo.modules[r[0]].classes:
+                r2 = repo.resolve_method(r[0], r[1], f.attr)
+                if r2:
+                    return r2[0], r2[1], "staticmethod" not in decorators(r2[1])
+                return None
+        owners = [(m2, q2) for m2 in (mod,) for q2 in m2.functions if "." in q2 and q2.split(".", 1)[1] == f.attr]
+        if len(owners) == 1:
+            fn2 = owners[0][0].functions[owners[0][1]]
+            return owners[0][0], fn2, "staticmethod" not in decorators(fn2)
+    return None
+
+
+def same_name_sites(repo, mod):
+    """-> (calls with a same-name forward, [(qualname, call, parameter, argument expression)])"""
+    hits, n = [], 0
+    for qn, fn in mod.functions.items():
+        own = set(param_names(fn)) - {"self", "cls"}
+        if not own:
+            continue
+        stored = {x.id for x in ast.walk(fn) if isinstance(x, ast.Name) and isinstance(x.ctx, ast.Store)}
+        for c in ast.walk(fn):
+            if not isinstance(c, ast.Call) or any(isinstance(a, ast.Starred) for a in c.args):
+                continue
+            r = _callee(repo, mod, qn, c)
+            if r is None:
+                continue
+            ps = param_names(r[1])
+            if r[2] and ps:
+                ps = ps[1:]
+            passed = {}
+            for i, a in enumerate(c.args):
+                if i < len(ps):
+                    passed[ps[i]] = a
+            for k in c.keywords:
+                if k.arg is not None:
+                    passed[k.arg] = k.value
+            for p, a in passed.items():
+                if p not in own or p in stored:
+                    continue
+                names = [x for x in ast.walk(a) if isinstance(x, ast.Name) and x.id == p]
+                if not names:
+                    continue
+                n += 1
+                if isinstance(a, ast.Name):
+                    continue
+                # the parameter itself wrapped in a call / method call that changes some values: strip, lower, upper, replace, normalize, ...
+                if isinstance(a, ast.Call) and isinstance(a.func, ast.Attribute) and isinstance(a.func.value, ast.Name) and a.func.value.id == p \
+                        and a.func.attr in ("strip", "lstrip", "rstrip", "lower", "upper", "replace", "casefold", "title", "capitalize", "swapcase", "expandtabs", "zfill"):
+                    hits.append((qn, c, p, a))
+    return n, hits
+
+
+def same_name_obligation(ctx, modnames, what):
+    out = []
+    total = 0
+    for mn in modnames:
+        mod = ctx.repo.module(mn)
+        n, hits = same_name_sites(ctx.repo, mod)
+        total += n
+        for qn, c, p, a in hits:
+            out.append(ctx.bad("%s:%s" % (mn, qn), "`%s` hands its parameter `%s` on as `%s`: the value is normalised on this path only, the other side of the pair uses it as given, so the "
+                                                   "two disagree for every value the normalisation changes (%s)" % (qn, p, ast.unparse(a), what), c, mod, key="one-sided-normalisation:%s:%s" % (qn, p)))
+    if not out:
+        out.append(ctx.ok("+".join(modnames) + ":*", "every parameter handed on under its own name is handed on unchanged (%d forwards inspected)" % total, key="same-name-forward"))
+    return out
